@@ -32,11 +32,16 @@ theorem C14_setNull_container (pj : PJ) (v : LVal) (hok : Ok pj v) (q e : Nat) (
       pj'.strings = pj.strings ∧ pj'.msg = pj.msg ∧ pj'.tape.size = pj.tape.size :=
   setNull_container_doc pj v hok q e hnode hqe hsmall i hoff hcur hview ht0 ht1 ht
 
-/-- The NOP fill used by every deletion writes `Nop | (hi − k)` at each `k ∈ [lo, hi)` and nothing else … -/
+/-- The NOP fill used by every deletion writes `Nop | (hi − k)` at each `k ∈ [lo, hi)` and nothing else …
+    (`SetNull` and both `DeleteElems` write through the iterator's view, `Iter.nopFillV lim`: that is this fill
+    whenever the range ends inside the view, `C14_nopFill_view`, and a panic otherwise, as in Go.) -/
 theorem C14_nopFill (n : Nat) (tape : Array UInt64) (lo hi : Nat) (hn : hi - lo = n) (hsz : hi ≤ tape.size) :
     ∃ tp, Iter.nopFill tape lo hi = .ok tp ∧ tp.size = tape.size ∧
       (∀ k, lo ≤ k → k < hi → tp[k]? = some (mkWord tagNop (UInt64.ofNat (hi - k)))) ∧
       (∀ k, (k < lo ∨ hi ≤ k) → tp[k]? = tape[k]?) := nopFill_spec n tape lo hi hn hsz
+/-- The view-checked fill of the model's `SetNull`/`DeleteElems` is `nopFill` on every range inside the view. -/
+theorem C14_nopFill_view (lim n : Nat) (tape : Array UInt64) (lo hi : Nat) (hn : hi - lo = n) (hv : hi ≤ lim) :
+    Iter.nopFillV lim tape lo hi = Iter.nopFill tape lo hi := SJ.Layout.nopFillV_eq_nopFill lim n tape lo hi hn hv
 /-- … which makes `[lo, hi)` a gap in the sense of Layout. -/
 theorem C14_fill_is_gap {pj' : PJ} {lo hi : Nat} (hh : hi < 2^56)
     (h : ∀ k, lo ≤ k → k < hi → word pj' k = some (mkWord tagNop (UInt64.ofNat (hi - k)))) (hle : lo ≤ hi) : Gap pj' lo hi :=
@@ -232,10 +237,10 @@ open SJ.GoSem SJ.Generated SJ.GoIter SJ.GoObject SJ.GoDelete in
     `View.firstType`, `arrForEach`, `forEach`, `arrDeleteElems`, `deleteElems` — the functions `C14_history`,
     `C14_gap_skipped` and `C12_forEach` are about: same callbacks in the same order with the same iterators, the same
     words overwritten with the same NOP distances, the same result, a panic exactly when the model panics; never stuck,
-    never out of fuel (`2·lim+7`). For the two `DeleteElems` the tie is stated for views in which every element ends
-    inside the view (`EndsInside`; every view the API hands out): the Go code writes through the view and panics at its
-    end where the model, which checks the array, writes on (`arrDeleteElems_exact` / `objDeleteElems_exact` state the
-    outcome without the premise; counterexample kept in `Proofs/GoDelete`). -/
+    never out of fuel (`2·lim+7`). No premise on the tape or the view beyond `v.lim ≤ pj.tape.size`: the Go code writes
+    the NOPs through the iterator's view and panics at its end when a deleted element ends beyond it, and so does the
+    model (`Iter.nopFillV`; until its repair it checked the array only and wrote on — the run that told them apart is
+    kept in `Proofs/GoDelete` as an `example` on which both now panic). -/
 theorem C14_delete_code_follows_source (pj : PJ) (hb : BufOK pj) (v : View) (hl : v.lim ≤ pj.tape.size) (ks : List Bytes)
     (q : Nat → Bool) (N : Nat) (hN : v.lim - v.off ≤ N) (fuel mf : Nat) (hmf : v.lim - v.off + 1 ≤ mf)
     (hf : 2 * v.lim + 7 ≤ fuel) :
@@ -244,17 +249,16 @@ theorem C14_delete_code_follows_source (pj : PJ) (hb : BufOK pj) (v : View) (hl 
       (View.arrForEach pj v.iter #[] mf) ∧
     SimOFE pj (runFun goFuns goObject_ForEach fuel ⟨objStore pj v ks [("fn.log", .ints [])], pj.tape⟩)
       (View.forEach pj ks v.iter 0 #[] mf) ∧
-    (EndsInside v.lim pj.tape → v.lim < 2^56 →
-      SimDel N q (runFun goFuns goArray_DeleteElems fuel
-          ⟨arrStore pj v [("fn.results", .bools (answers N q)), ("fn.log", .ints [])], pj.tape⟩)
-        (View.arrDeleteElems pj q v.iter 0 #[] mf) ∧
-      SimODel true 0 q [] (runFun goFuns goObject_DeleteElems fuel
-          ⟨objStore pj v ks [("fn==nil", .bool true)], pj.tape⟩)
-        (View.deleteElems pj (fun _ _ => true) ks v.iter 0 #[] mf) ∧
-      SimODel false N q [] (runFun goFuns goObject_DeleteElems fuel
-          ⟨objStore pj v ks [("fn==nil", .bool false), ("fn.results", .bools (answers N q)), ("fn.log", .ints [])],
-            pj.tape⟩)
-        (View.deleteElems pj (fun k _ => q k) ks v.iter 0 #[] mf)) :=
+    SimDel N q (runFun goFuns goArray_DeleteElems fuel
+        ⟨arrStore pj v [("fn.results", .bools (answers N q)), ("fn.log", .ints [])], pj.tape⟩)
+      (View.arrDeleteElems pj q v.iter 0 #[] mf) ∧
+    SimODel true 0 q [] (runFun goFuns goObject_DeleteElems fuel
+        ⟨objStore pj v ks [("fn==nil", .bool true)], pj.tape⟩)
+      (View.deleteElems pj (fun _ _ => true) ks v.iter 0 #[] mf) ∧
+    SimODel false N q [] (runFun goFuns goObject_DeleteElems fuel
+        ⟨objStore pj v ks [("fn==nil", .bool false), ("fn.results", .bools (answers N q)), ("fn.log", .ints [])],
+          pj.tape⟩)
+      (View.deleteElems pj (fun k _ => q k) ks v.iter 0 #[] mf) :=
   go_delete_source_tie pj hb v hl ks q N hN fuel mf hmf hf
 
 end SJ.Properties.C14
